@@ -92,6 +92,21 @@ def _arr(texts):
     return bnp.as_encoded_array(list(texts))
 
 
+def _ilist_view_failure(strops, lists, want, batches, keep_last):
+    """Permutations and sub-batches taken by indexing the ragged array (views that have not been flattened yet) must give the rows of the
+    full batch. A sub-batch without any number is an empty batch (it may raise) and is skipped."""
+    import numpy as np
+    from npstructures import RaggedArray
+    for tag, idx in batches(lists):
+        if tag == "full" or not any(lists[i] for i in idx):
+            continue
+        view = RaggedArray([list(l) for l in lists])[np.array(idx, dtype=int)]
+        got = strops.int_lists_to_strings(view, sep=",", keep_last=keep_last).tolist()
+        if got != [want[i] for i in idx]:
+            return Failure("C18:int-list-join-batch-dependent", {"batch": tag + ":view", "rows": idx, "expected": [want[i] for i in idx], "actual": got})
+    return None
+
+
 def check(case, stats=None):
     import numpy as np
     from npstructures import RaggedArray
@@ -138,6 +153,13 @@ def check(case, stats=None):
                     out.append(Failure("C18:text-to-int" if tag == "full" else "C18:text-to-int-batch-dependent",
                                        {"batch": tag, "text": sub[j], "value": got[j]}))
                     break
+                if tag != "full" and all(len(t) for t in texts):
+                    # the same sub-batch taken by indexing the full array (a view that has not been flattened)
+                    got = fn(_arr(texts)[np.array(idx, dtype=int)]).tolist()
+                    if got != want:
+                        j = next(i for i, (g, w) in enumerate(zip(got, want)) if g != w)
+                        out.append(Failure("C18:text-to-int-batch-dependent", {"batch": tag + ":view", "text": sub[j], "value": got[j]}))
+                        break
         elif k == "ilist":
             lists = case["lists"]
             ra = RaggedArray([list(l) for l in lists])
@@ -145,6 +167,8 @@ def check(case, stats=None):
             want = ["".join(str(v) + "," for v in l) if case.get("keep_last") else ",".join(str(v) for v in l) for l in lists]
             if got != want:
                 out.append(Failure("C18:int-list-join", {"expected": want, "actual": got}))
+            elif len(lists) > 1 and _ilist_view_failure(strops, lists, want, batches, bool(case.get("keep_last"))) is not None:
+                out.append(_ilist_view_failure(strops, lists, want, batches, bool(case.get("keep_last"))))
             else:
                 for row_text, l in zip(got, lists):
                     if not l:
